@@ -50,7 +50,8 @@ class AddLineUnknownVersion(Contract):
            "number of input header lines, nothing connected or processed. While the version is unknown: a comment is connected; a header is merged and fixes the version iff it carries VN (1.0 -> gfa1, 2.0 -> gfa2, "
            "anything else is refused by _validate_version at level >= 1); a segment fixes the version to its own syntax; E F G U O fix gfa2; in these "
            "cases the queue is processed exactly once, after the version is set, and the line is connected; L C P set the guess to gfa1 and are queued; "
-           "any other record is queued. Every line built from a string receives the Gfa's vlevel (comments excepted) and dialect.")
+           "any other record is queued. (C13) In a Gfa of the rGFA dialect a line which would fix the version gfa2 (a GFA2 segment, E F G U O, VN 2.0) is refused with VersionError, "
+           "at every level and before anything is kept. Every line built from a string receives the Gfa's vlevel (comments excepted) and dialect.")
 
     def cases(self, ctx):
         g = ctx.gfapy
@@ -66,6 +67,7 @@ class AddLineUnknownVersion(Contract):
                         "_line_queue": Queue(), "_n_input_header_lines": z3.Int("nh"), "header": hdr}, hdr.oid: {}, dialect.oid: {}}
         text = LineText(rt)
         parse_ok, merge_ok = z3.Bool("line_can_be_parsed"), z3.Bool("header_can_be_merged")
+        rgfa = z3.Bool("dialect_is_rgfa")
         nh0 = heap[s.oid]["_n_input_header_lines"]
         def m_line_ctor(E, st, pos_, kw):
             yield ("raise", Exc(g.FormatError), [z3.Not(parse_ok)], st.with_ghost("failed_at", "parse"))
@@ -90,7 +92,14 @@ class AddLineUnknownVersion(Contract):
             bad = z3.BoolVal(v not in ("gfa1", "gfa2")) if (isinstance(v, str) or v is None) else z3.Not(z3.Or(S(v) == sv("gfa1"), S(v) == sv("gfa2")))
             yield ("raise", Exc(g.VersionError), [bad])
             yield ("val", None, [z3.Not(bad)])
+        def m_dialect(E, st, pos_, kw):
+            v = pos_[-1]
+            is2 = z3.BoolVal(v == "gfa2") if isinstance(v, str) else (S(v) == sv("gfa2"))
+            clean = (cur_version(st) is None and not any(st.ghost.get(k_) for k_ in ("merged", "processed", "connected", "queued")))
+            yield ("raise", Exc(g.VersionError), [z3.And(rgfa, is2)], st.with_ghost("failed_at", "dialect" if clean else "dialect-too-late"))
+            yield ("val", None, [z3.Not(z3.And(rgfa, is2))], st)
         models = {g.Line: m_line_ctor,
+                  (ctx.fn_opt("gfapy/gfa.py::Gfa._check_version_allowed_by_dialect") or "no-dialect-check-in-this-tree"): m_dialect,
                   ctx.fn("gfapy/line/common/connection.py::Connection.connect"): m_connect,
                   ctx.fn("gfapy/line/header/multiline.py::Multiline._merge"): m_merge,
                   ctx.fn("gfapy/lines/creators.py::Creators.process_line_queue"): m_process,
@@ -106,12 +115,19 @@ class AddLineUnknownVersion(Contract):
                     return z3.BoolVal(ver == x)
                 return S(ver) == (sv(x) if isinstance(x, str) else x) if x is not None else z3.BoolVal(False)
             n = lambda key: gh.get(key, 0)
+            decides2 = z3.Or(z3.And(rt == sv("S"), segv == sv("gfa2")), isrt(*GFA2_ONLY), z3.And(rt == sv("H"), has_vn, vn == sv("2.0")))
             if k == "raise":
                 if gh.get("failed_at") in ("parse", "merge"):
                     nh = st.attrs(s).get("_n_input_header_lines")
                     unchanged = z3.And(ver_eq(None), z3.BoolVal(guess == "gfa2"), S(nh) == nh0,
                                        z3.BoolVal(n("queued") == 0 and n("processed") == 0 and n("connected") == 0 and n("merged") == 0))
                     return z3.And(z3.BoolVal(issubclass(v.cls, g.Error)), unchanged, z3.Not(parse_ok) if gh.get("failed_at") == "parse" else z3.Not(merge_ok))
+                if gh.get("failed_at") == "dialect":
+                    nh = st.attrs(s).get("_n_input_header_lines")
+                    return z3.And(z3.BoolVal(v.cls is g.VersionError), rgfa, decides2, parse_ok, ver_eq(None), z3.BoolVal(guess == "gfa2"), S(nh) == nh0,
+                                  z3.BoolVal(n("queued") == 0 and n("processed") == 0 and n("connected") == 0 and n("merged") == 0))
+                if gh.get("failed_at") == "dialect-too-late":
+                    return z3.BoolVal(False)
                 nh = st.attrs(s).get("_n_input_header_lines")
                 return z3.And(z3.BoolVal(v.cls is g.VersionError), rt == sv("H"), has_vn, vn != sv("1.0"), vn != sv("2.0"),            # at EVERY level: only 1.0 and 2.0 name a version
                               # (C08) the unsupported version is refused before anything of the line is kept
@@ -121,7 +137,7 @@ class AddLineUnknownVersion(Contract):
             decides = z3.Or(rt == sv("S"), isrt(*GFA2_ONLY), z3.And(rt == sv("H"), has_vn))
             queued_kind = z3.Not(isrt("#", "H", "S", *GFA2_ONLY))
             return z3.And(
-                version_ok,
+                version_ok, z3.Not(z3.And(rgfa, decides2)),          # C13: the dialect rGFA contradicts every line that would make the Gfa GFA2
                 z3.If(queued_kind, z3.BoolVal(n("queued") == 1 and n("connected") == 0 and n("processed") == 0), z3.BoolVal(n("queued") == 0)),
                 z3.If(decides, z3.BoolVal(n("processed") == 1 and bool(gh.get("version_known_at_process"))), z3.BoolVal(n("processed") == 0)),
                 z3.If(isrt("L", "C", "P"), z3.BoolVal(guess == "gfa1"), z3.BoolVal(guess == "gfa2")),
@@ -131,10 +147,10 @@ class AddLineUnknownVersion(Contract):
                 # C18: the Gfa's level and dialect reach every line built here (a comment carries no validated field)
                 z3.If(isrt("H", "S", *GFA2_ONLY), z3.BoolVal(n("built") == 1 and bool(gh.get("vlevel_ok")) and bool(gh.get("dialect_ok"))), z3.BoolVal(True)))
         pre = [prt, pv, vl >= 0, vl <= 3, z3.Implies(has_vn, vn != sv(""))]      # a tag value is never empty (tag grammar)
-        return [Case("str", [s, text], post, pre=pre, heap=heap, symbols=dict(rt=rt, vlevel=vl, VN=vn, header_has_VN=has_vn, segment_version=segv, line_can_be_parsed=parse_ok, header_can_be_merged=merge_ok),
+        return [Case("str", [s, text], post, pre=pre, heap=heap, symbols=dict(rt=rt, vlevel=vl, VN=vn, header_has_VN=has_vn, segment_version=segv, line_can_be_parsed=parse_ok, header_can_be_merged=merge_ok, dialect_is_rgfa=rgfa),
                      models=models, minimize=[vl], expect_paths=8,
                      replay=lambda w: {"target": "bounded.replay_helpers:add_line_unknown_version",
-                                       "args": [w["rt"], w["vlevel"], w["VN"], w["header_has_VN"], w["segment_version"], w.get("line_can_be_parsed", True), w.get("header_can_be_merged", True)]},
+                                       "args": [w["rt"], w["vlevel"], w["VN"], w["header_has_VN"], w["segment_version"], w.get("line_can_be_parsed", True), w.get("header_can_be_merged", True), w.get("dialect_is_rgfa", False)]},
                      confirm=battery_confirm)]
 
 
